@@ -436,3 +436,8 @@ PROPERTY = Property(
          "public surface (exhaustive); identical rating-object behaviour; BT-part == BT-full on two teams; distinct by SHA-1",
     assumptions=["class-specific names are normalised before signatures / reprs are compared"],
 )
+
+from vf import opt as _opt  # noqa: E402
+
+PROPERTY.clauses.append(_opt.optimised("C19", next(c for c in PROPERTY.clauses if c.name == "argument-verdicts"), quick=160, thorough=1600))
+PROPERTY.clauses.append(_opt.optimised("C19", next(c for c in PROPERTY.clauses if c.name == "rating-objects"), quick=160, thorough=1600))
